@@ -34,8 +34,9 @@ Definition merc_onchain_eqb (a b : merc_onchain) : bool := (mo_min a =? mo_min b
 
 Definition c16_agrees (c : c16_case) : bool :=
   match c with
-  | KObs _ bs dec valid hp =>
+  | KObs inp bs dec valid hp =>
       res_eqb raw_obs_eqb (decode_observation bs) dec &&
+      match inp with Some ob => bytes_eq (encode_observation_like bs ob) bs | None => true end &&
       match valid, dec with
       | Some v, Ok ob => Bool.eqb (validate_observation (fun _ => true) hp ob) v
       | _, _ => true
